@@ -128,6 +128,8 @@ impl Busy {
 }
 impl Drop for Busy {
     fn drop(&mut self) {
+        // progress first: a watchdog tick between the two lines must not see "not busy, no beat for minutes"
+        beat();
         BUSY.fetch_sub(1, Ordering::SeqCst);
         beat();
     }
